@@ -88,16 +88,12 @@ fn layout_valid(size: usize, align: usize) -> bool {
 
 unsafe fn guards_ok(e: &Entry) -> bool {
     let base = e.base as *const u8;
-    for i in 0..e.front { if *base.add(i) != GUARD { return false; } }
-    for i in (e.front + e.size)..e.total { if *base.add(i) != GUARD { return false; } }
-    true
+    crate::elem::all_eq(base, e.front, GUARD) && crate::elem::all_eq(base.add(e.front + e.size), e.total - e.front - e.size, GUARD)
 }
 
 unsafe fn scan_free(st: &mut AState, e: Entry) {
     if !guards_ok(&e) { st.err(AErr::GuardDamaged { size: e.size }); }
-    let p = e.user as *const u8;
-    let mut dirty = false;
-    for i in 0..e.size { if *p.add(i) != POISON { dirty = true; break; } }
+    let dirty = !crate::elem::all_eq(e.user as *const u8, e.size, POISON);
     if dirty { st.err(AErr::StaleWrite { size: e.size }); }
     System.dealloc(e.base as *mut u8, Layout::from_size_align_unchecked(e.total, e.alloc_align));
 }
